@@ -307,10 +307,14 @@ func init() {
 			return o, bound, modes
 		},
 		More: func(tier string) []scnFamily {
+			// frames that announce and journal state variables around the transfers: the balance list lives in the same
+			// per-account structure as the key tree, so registrations before / after a transfer must leave it alone
+			jo := &scnOpts{Forks: []world.Fork{world.Shanghai}, Answers: failAlphabet, BoundAll: true, TopValues: []int{0, 1}}
+			jo.Gen = scn.GenOpts{MaxDepth: 2, Effects: []scn.Effect{scn.ENone, scn.EJournal, scn.EJournalRef}, Terms: []scn.Term{scn.TStop, scn.TRevert}, Kinds: []scn.Kind{scn.KCall, scn.KCreate}, Values: []int{0, 1}, Targets: []scn.Target{scn.TgChild}}
 			return []scnFamily{chainFamily(tier, []scn.Effect{scn.ENone}, func(o *scnOpts) {
 				o.Gen.Targets = []scn.Target{scn.TgChild, scn.TgSelf}
 				o.Gen.LeafCalls = true
-			})}
+			}), {jo, 1, [][]bool{{true}, {true, true}}}}
 		}}
 	register(&Check{ID: "C13", Level: "model_checking",
 		Technique: "bounded exhaustive enumeration of scenario call trees with value transfers (zero, one wei, whole-range), transfers to precompiles, code-less and newly created accounts, frames that later fail, repeated invocations; the recorded balance journal is compared with the balances the reference interpreter computes around every transfer and with what a wrapping transfer function saw on the real state",
